@@ -85,24 +85,17 @@ func (s *Sim) genReplay(exclude map[int]bool) SubCmd {
 	r := s.r
 	var cand []*HtlcSpec
 	for _, h := range s.htlcs {
-		if !exclude[h.Link] && (s.provoke || !(s.staleJIT(h) || (s.ioEvent && s.jitPath(h)))) {
+		if !exclude[h.Link] && (s.provoke || !(s.staleJIT(h) || (s.ioEvent && s.jitPath(h)) || s.ampReuse(h))) {
 			cand = append(cand, h)
 		}
 	}
 	if len(cand) == 0 {
-		for _, h := range s.htlcs {
-			if !exclude[h.Link] {
-				cand = append(cand, h)
-			}
-		}
-	}
-	if len(cand) == 0 {
-		cand = s.htlcs
+		return SubCmd{Kind: "noop"}
 	}
 	// prefer recent HTLCs: draw 0 = most recent
 	j := r.Draw(len(cand))
 	h := cand[len(cand)-1-j]
-	return SubCmd{Kind: "replay", H: h, Height: s.height, CancelSet: r.Draw(24) == 23}
+	return SubCmd{Kind: "replay", H: h, Height: s.height, CancelSet: r.Draw(24) == 23 && s.cancelSetOK(h)}
 }
 
 // ---- HTLCs ----------------------------------------------------------------
@@ -140,7 +133,8 @@ func (s *Sim) expiryFor(d int32) uint32 {
 		m, lo = rd, d
 	}
 	h := int32(s.height)
-	opts := []int32{h + m, h + m, h + m + 1, h + m + 40, h + m, h + m - 1, h + lo, h + m - 1, h + lo - 1, h + m + 3, h + rd - 1, h + d - 1}
+	opts := []int32{h + m, h + m, h + m + 1, h + m + 40, h + m, h + m + 2, h + m + 40, h + m + 1, h + m + 3, h + m + 40,
+		h + m - 1, h + lo, h + m - 1, h + lo - 1, h + rd - 1, h + d - 1}
 	e := opts[r.Draw(len(opts))]
 	if e < 1 {
 		e = 1
@@ -193,9 +187,9 @@ func (s *Sim) shardAmt(a *Attempt) lnwire.MilliSatoshi {
 		rem = t - liveSum
 	}
 	switch r.Draw(12) {
-	case 0, 1, 2, 3:
+	case 0, 1, 2:
 		return nz(rem)
-	case 4, 5, 6:
+	case 3, 4, 5, 6:
 		return nz(rem / 2)
 	case 7:
 		return nz(rem - 1)
@@ -210,7 +204,7 @@ func (s *Sim) shardAmt(a *Attempt) lnwire.MilliSatoshi {
 }
 
 func (s *Sim) addrVariant(right [32]byte, n int) ([32]byte, string) {
-	switch s.r.Draw(12) {
+	switch s.r.Draw(20) {
 	case 8:
 		if len(s.invs) > 1 {
 			return s.invs[(n+1)%len(s.invs)].Addr, "address of another invoice"
@@ -233,7 +227,7 @@ func (s *Sim) totalVariant(v lnwire.MilliSatoshi) (lnwire.MilliSatoshi, string) 
 	if base == 0 {
 		base = 5000
 	}
-	switch s.r.Draw(10) {
+	switch s.r.Draw(16) {
 	case 6:
 		return base + 1000, "declared total above invoice amount"
 	case 7:
@@ -277,10 +271,7 @@ func (s *Sim) genHtlcCmd(link int) SubCmd {
 	if len(open) > 0 && r.Draw(8) < s.k.ContinueNum {
 		a := open[len(open)-1-r.Draw(len(open))]
 		s.shard(h, a)
-		if s.burstAmp != nil && a.SetID != [32]byte{} {
-			s.burstAmp[a.N] = true
-		}
-		cmd.CancelSet = r.Draw(24) == 23
+		cmd.CancelSet = r.Draw(24) == 23 && s.cancelSetOK(h)
 		return cmd
 	}
 
@@ -328,7 +319,7 @@ func (s *Sim) genHtlcCmd(link int) SubCmd {
 			h.HasMPP, h.MppTotal, h.MppAddr = true, 5000, h32("strayaddr", h.N)
 		}
 	}
-	cmd.CancelSet = r.Draw(24) == 23
+	cmd.CancelSet = r.Draw(24) == 23 && s.cancelSetOK(h)
 	return cmd
 }
 
@@ -466,6 +457,9 @@ func (s *Sim) shard(h *HtlcSpec, a *Attempt) {
 	}
 	h.Note += note
 	a.Shards = append(a.Shards, h.N)
+	if s.burstAmp != nil && a.SetID != [32]byte{} {
+		s.burstAmp[a.N] = true
+	}
 }
 
 // keysend builds a spontaneous keysend HTLC (new preimage or a second payment
@@ -549,7 +543,8 @@ func (s *Sim) genBurst() []SubCmd {
 			subs = append(subs, s.genHtlcCmd(l))
 		case "replay":
 			c := s.genReplay(usedLinks)
-			if usedLinks[c.H.Link] {
+			if c.H == nil {
+				n--
 				continue
 			}
 			usedLinks[c.H.Link] = true
@@ -608,4 +603,42 @@ func (s *Sim) resolvedShards(a *Attempt) bool {
 		}
 	}
 	return false
+}
+
+// ampReuse: h is an AMP HTLC that the store does not (or no longer) hold while
+// other shards of its set are already resolved; delivering it again re-uses a
+// resolved set id (known KV-store finding).
+func (s *Sim) ampReuse(h *HtlcSpec) bool {
+	if !h.HasAMP || h.Attempt < 0 {
+		return false
+	}
+	for _, p := range s.lastSnaps[0] {
+		if p == nil {
+			continue
+		}
+		for _, x := range p.Htlcs {
+			if x.Key == h.Key {
+				return false
+			}
+		}
+	}
+	return s.resolvedShards(s.attempts[h.Attempt])
+}
+
+// cancelSetOK: the interceptor client only vetoes HTLCs that present the
+// invoice's own payment address (or none). With a foreign address the KV store
+// still finds the invoice by hash (and fails the HTLC later) while the SQL
+// store reports "not found" before the interceptor is asked; both refuse the
+// HTLC, but a blind veto would cancel the pending set on one store only.
+func (s *Sim) cancelSetOK(h *HtlcSpec) bool {
+	a, carries := h.CarriesAddr()
+	if !carries {
+		return true
+	}
+	for _, sp := range s.invs {
+		if sp.Hash == h.Hash && sp.Addr != *a {
+			return false
+		}
+	}
+	return true
 }
